@@ -380,7 +380,10 @@ check:
 	for _, pv := range t.Pattern {
 		if !seenPatterns[pv.Name] {
 			seenPatterns[pv.Name] = true
-			y.Pattern = append(y.Pattern, pv.Name)
+			// y.Pattern starts as the list of the type t is based on:
+			// give append no spare capacity to write into, the other
+			// types based on it would see this pattern as well.
+			y.Pattern = append(y.Pattern[:len(y.Pattern):len(y.Pattern)], pv.Name)
 		}
 	}
 
@@ -405,7 +408,7 @@ check:
 		checkPattern(ext, ext.Argument, syntax.POSIX)
 		if !seenPOSIXPatterns[ext.Argument] {
 			seenPOSIXPatterns[ext.Argument] = true
-			y.POSIXPattern = append(y.POSIXPattern, ext.Argument)
+			y.POSIXPattern = append(y.POSIXPattern[:len(y.POSIXPattern):len(y.POSIXPattern)], ext.Argument)
 		}
 	}
 
@@ -420,7 +423,7 @@ looking:
 					continue looking
 				}
 			}
-			y.Type = append(y.Type, ut.YangType)
+			y.Type = append(y.Type[:len(y.Type):len(y.Type)], ut.YangType)
 		}
 	}
 
